@@ -695,7 +695,41 @@ def oracle_C14(inp, out):
     return None
 
 
-ORACLES = {"C13": oracle_C13, "C14": oracle_C14}
+def oracle_C09(inp, out):
+    """encode_symbol: a symbol outside the model's support is refused with ImpossibleSymbol (-1), a
+    symbol of the support never is (its only error is OutOfRemainders, -3); a refused encode leaves
+    the raw state as it was (whenever dumps surround it); the batch form stops at the first error."""
+    if any(x in SPECIAL for x in out):
+        return "panic/abort/timeout"
+    try:
+        ms, p0, kind, ws, _ = header(inp)
+        steps = list(walk(inp, out))
+    except (IndexError, ValueError):
+        return "malformed output"
+
+    def insup(m, sym):
+        return any(e[0] == sym for e in ms[m][1])
+
+    for st in steps:
+        if st[0] == 1:
+            m, sym = st[1]
+            if not insup(m, sym) and st[2] != -1:
+                return "encode of a symbol outside the support returned %d" % st[2]
+            if insup(m, sym) and st[2] not in (0, -3):
+                return "encode of a symbol of the support returned %d" % st[2]
+        elif st[0] == 13:
+            bad = [not insup(m, sym) for m, sym in st[1]]
+            if not any(bad) and st[2] not in (0, -3):
+                return "batch encode of symbols of the support returned %d" % st[2]
+            if any(bad) and st[2] == 0:
+                return "batch encode containing an impossible symbol succeeded"
+    for a, b, c in zip(steps, steps[1:], steps[2:]):
+        if a[0] == 6 and c[0] == 6 and b[0] == 1 and b[2] != 0 and a[2] != c[2]:
+            return "a refused encode changed the coder"
+    return None
+
+
+ORACLES = {"C13": oracle_C13, "C14": oracle_C14, "C09": oracle_C09}
 
 
 def nontrivial(inp, out, prop=None):
